@@ -4,6 +4,7 @@ from fractions import Fraction
 from xml.sax.saxutils import escape
 
 from bs4 import BeautifulSoup, NavigableString
+from bs4.formatter import XMLFormatter
 
 from ..base import (
     BaseReader, BaseWriter, CaptionSet, CaptionList, Caption, CaptionNode,
@@ -66,6 +67,23 @@ MICROSECONDS_PER_UNIT = {
 }
 
 DFXP_DEFAULT_LANGUAGE_CODE = "en"
+
+
+def escape_attribute(value):
+    """Escapes a string for use inside a double-quoted XML attribute"""
+    return escape(str(value), {'"': '&quot;'})
+
+
+class AttributeEscapingFormatter(XMLFormatter):
+    """The text of the <p> elements is assembled (and escaped) by hand, so the
+    document is serialized without entity substitution; attribute values
+    (style values, ids, language codes) still have to be escaped.
+    """
+    def __init__(self):
+        super().__init__(entity_substitution=None)
+
+    def attribute_value(self, value):
+        return escape_attribute(value)
 
 
 class DFXPReader(BaseReader):
@@ -384,7 +402,8 @@ class DFXPWriter(BaseWriter):
 
             body.append(div)
         self.region_creator.cleanup_regions()
-        caption_content = dfxp.prettify(formatter=None)
+        caption_content = dfxp.prettify(
+            formatter=AttributeEscapingFormatter())
         return caption_content
 
     @staticmethod
@@ -471,7 +490,7 @@ class DFXPWriter(BaseWriter):
 
             content_with_style = _recreate_style(node.content, dfxp)
             for style, value in list(content_with_style.items()):
-                styles += f' {style}="{value}"'
+                styles += f' {style}="{escape_attribute(value)}"'
             if node.layout_info:
                 region_id, region_attribs = (
                     self.region_creator.get_positioning_info(
